@@ -3,13 +3,14 @@ from harness.gen import text
 
 VERSIONS = ["1.4", "1.5", "2.0", "2.1", "2.2"]
 MAXSUB = {0: [25, 35, 39, 39, 39], 1: [39, 46, 56, 56, 56], 2: [39, 46, 56, 56, 56], 3: [14, 17, 28, 28, 33], 4: [5] * 5}
-NODE_VERSIONS = ["1.4", "1.4.1", "1.5", "1.5.0", "2.0", "2.0.0", "2.1.1", "2.2", "2.2.0", "2.3", "3.0", "1.3", "abc", "2.0-beta", ""]
+NODE_VERSIONS = ["1.4", "1.4.1", "1.5", "1.5.0", "2.0", "2.0.0", "2.1.1", "2.2", "2.2.0", "2.3", "3.0", "1.3", "abc", "2.0-beta", "",
+                 "1.4.0", "1.04", "1.4.0.0", "1.3.9", "2", "7 ."]
 
 # payloads by set sub-type class
 VALID_SET = {2: ["0", "1"], 3: ["0", "50", "100", " 7 "], 15: ["0", "1"], 16: ["1"], 36: ["0"], 21: ["Off", "HeatOn"],
              22: ["Auto", "Min", "1", "0"], 23: ["0", "55.5", "100"], 40: ["ff00aa"], 41: ["ff00aa80"], 44: ["20.5"],
              45: ["21"], 49: ["55.7,12.5,10"], 56: ["0.5", "-1"]}
-INVALID_SET = {2: ["2", "on", ""], 3: ["101", "-1", "x"], 15: ["2"], 16: [""], 36: ["x"], 21: ["heat"], 22: ["fast", "2"],
+INVALID_SET = {2: ["2", "on", "", "inf", "1e0"], 3: ["101", "-1", "x", "inf", "-Infinity", "1e999", "nan", "42.0", "1e1"], 15: ["2"], 16: [""], 36: ["x"], 21: ["heat"], 22: ["fast", "2"],
                23: ["101", "nan", "x"], 40: ["ff00a", "gg00aa"], 41: ["ff00aa8"], 44: ["100.5"], 45: ["-1"],
                49: ["1,2", "a,b,c"], 56: ["1.5", "x"]}
 FREE_SET = [0, 1, 4, 5, 17, 24, 25, 37, 38, 47]
@@ -91,10 +92,10 @@ class Gen:
         if k < 0.80:   # internal
             mx = MAXSUB[3][vi]
             sub = r.choice([0, 1, 3, 3, 6, 9, 11, 12, 14, 2, 13, 18, 21, 22, 22, 32, 32, 33, r.randrange(0, mx + 2)])
-            pay = {0: r.choice(["0", "77", "100", "101", "x"]), 1: r.choice(["", "5"]), 3: "", 6: r.choice(["0", "M", ""]),
+            pay = {0: r.choice(["0", "77", "100", "101", "x", "inf", "1e999", "nan", "-inf", "55.0", " 7 ", "٧"]), 1: r.choice(["", "5"]), 3: "", 6: r.choice(["0", "M", ""]),
                    9: "log text", 11: r.choice(["Sketch", "名前"]), 12: r.choice(["1.0", "v2"]), 14: "Gateway startup complete",
-                   2: "2.2.0", 13: "", 18: "", 21: r.choice(["0", "7"]), 22: r.choice(["500", "0", "x"]),
-                   32: r.choice(["500", "0", ""]), 33: "1"}.get(sub, r.choice(["", "0", "x"]))
+                   2: "2.2.0", 13: "", 18: "", 21: r.choice(["0", "7"]), 22: r.choice(["500", "0", "x", "inf", "1e999", "5.0"]),
+                   32: r.choice(["500", "0", "", "inf", "nan"]), 33: "1"}.get(sub, r.choice(["", "0", "x"]))
             node = n if sub != 3 else r.choice([255, 255, n])
             child = 255 if r.random() < 0.93 else r.choice([0, 1])
             return f"{node};{child};3;0;{sub};{pay}"
